@@ -36,6 +36,8 @@ def make_self(it, dirs_exist=True):
     alg, ns = z3.String("self.algorithm"), z3.String("self.sysmeta_ns")
     ctx.assume(z3.And(depth >= 1, width >= 1))
     ctx.assume(z3.Or(*[alg == z3.StringVal(a) for a in T.DEFAULT5]))
+    # the configured namespace is a usable format id (not a non-empty all-blank string)
+    ctx.assume(z3.Not(z3.And(ns != T.EMPTY, T.allws(ns))))
     use_mp = z3.Bool("self.use_multiprocessing")
     f = s.f
     f["fhs_logger"] = VObj("logger")
